@@ -236,13 +236,14 @@ func (p *Profile) AddRule(log map[string]string) {
 
 	if !done {
 		switch {
+		// Records of kernels that do not log the class yet. A socket reached
+		// through a file descriptor has a file_ operation: the family first
+		case log["family"] != "":
+			p.Rules = append(p.Rules, newNetworkFromLog(log))
 		case strings.HasPrefix(log["operation"], "file_"):
 			p.Rules = append(p.Rules, newFileFromLog(log))
 		case strings.Contains(log["operation"], "dbus"):
 			p.Rules = append(p.Rules, newDbusFromLog(log))
-		// Records of kernels that do not log the class yet
-		case log["family"] != "":
-			p.Rules = append(p.Rules, newNetworkFromLog(log))
 		case newLogMountMap[log["operation"]] != nil:
 			p.Rules = append(p.Rules, newLogMountMap[log["operation"]](log))
 		case log["rlimit"] != "":
